@@ -257,7 +257,7 @@ pub fn check_json(c: &JsonCase, ctx: &mut Ctx) -> CheckResult {
         let same = o1.status == o2.status && o1.iterations == o2.iterations && o1.x.iter().zip(&o2.x).all(|(p, q)| p.to_bits() == q.to_bits());
         ensure!(same, "equilibration off and nothing reduced: the loaded problem does not solve bit-identically ({:?}/{} vs {:?}/{})", o1.status, o1.iterations, o2.status, o2.iterations);
     }
-    if !huge_rhs && a == Verdict::Solved && b == Verdict::Solved && o1.status == SolverStatus::Solved && o2.status == SolverStatus::Solved {
+    if planted && !huge_rhs && a == Verdict::Solved && b == Verdict::Solved && o1.status == SolverStatus::Solved && o2.status == SolverStatus::Solved {
         let g = c.st.tol_gap_abs.max(c.st.tol_gap_rel * 1.0f64.max(o1.obj_val.abs()));
         // same data up to rounding: objectives agree within the two gaps plus feasibility slack scaled by the dual norms
         let slack = 1e3 * c.st.tol_feas * (1.0 + norm2(&o1.x) + norm2(&o1.z) + norm2(&o2.x) + norm2(&o2.z)) * (1.0 + norm_inf(&ps.q) + norm_inf(&ps.b.iter().map(|v| v.min(bound)).collect::<Vec<f64>>()));
